@@ -12,10 +12,11 @@ for every IR node / program unit that carries a `source`
   C  `source.string` with all white space removed is contained in the white-space-free text of lines l0..l1;
   D  generated files only: when the node can be paired with a generator statement (same unit, same kind,
      same position in source order, equal counts) and that statement is alone on its line(s), l0 is the
-     line the generator put the statement on;
+     line the generator put the statement on, and the recorded text (if any) is not empty (clause N);
   E  the span lies inside the span of the nearest enclosing node that has a source.
 Nothing is demanded about *which* sub-string of a line a node records, about l1 of single statements, or
-about nodes without source.  On the lazy paths a node whose numbers satisfy A/C/D only after adding the
+about nodes without source; nodes whose recorded text is empty (FP gives the empty spec/body sections of an
+empty routine a one-line span just after it) are judged by clause A only.  On the lazy paths a node whose numbers satisfy A/C/D only after adding the
 start line of an enclosing re-parsed top-level unit is reported under one separate signature
 ("line numbers relative to the re-parsed unit") so that it cannot mask other defects.
 """
@@ -124,7 +125,7 @@ def collect(sf):
 
 
 # ------------------------------------------------------------------ oracle
-def judge(text, recs, lay=None, lazy=False):
+def judge(text, recs, lay=None, lazy=False, fragments=()):
     """Returns list of (clause, cls, message, relative) for the violating records; `relative` marks records of a
     lazy path whose numbers fit after adding the start of a re-parsed top-level unit."""
     lines = text.split('\n')
@@ -133,7 +134,8 @@ def judge(text, recs, lay=None, lazy=False):
     offsets = [0]
     if lazy and lay is not None:
         # any program unit may have been re-parsed on its own (also nested ones that REGEX took for top-level)
-        offsets += sorted({s.l0 - 1 for s in lay.stmts if s.kind in GROUPS['unit']} - {0})
+        # ... or a top-level fragment of the initial REGEX parse (`fragments`: their start lines)
+        offsets += sorted(({s.l0 - 1 for s in lay.stmts if s.kind in GROUPS['unit']} | {f - 1 for f in fragments}) - {0})
 
     # pairing with generator statements (clause D)
     want = {}
@@ -164,6 +166,8 @@ def judge(text, recs, lay=None, lazy=False):
         if r['idx'] in want and l0 != want[r['idx']]:
             return 'D', (f'statement is on line {want[r["idx"]]} of the file, node records '
                          f'({r["l0"]}, {r["l1"]}) {(r["string"] or "")[:60]!r}')
+        if r['idx'] in want and r['string'] is not None and not r['string'].strip():
+            return 'N', f'empty text recorded for the statement on line {want[r["idx"]]}'
         return None
 
     out = []
@@ -182,8 +186,8 @@ def judge(text, recs, lay=None, lazy=False):
         else:
             out.append((bad[0], r['cls'], f'{r["cls"]} in {r["unit"] or "file"}: {bad[1]}', False))
     for r in recs:
-        if r['parent'] is None:
-            continue
+        if r['parent'] is None or (r['string'] is not None and not r['string'].strip()):
+            continue      # placeholder nodes without text (empty sections of empty routines) have nothing to locate
         p = recs[r['parent']]
         a0, a1 = r['l0'] + off_of[r['idx']], r['l1'] + off_of[r['idx']]
         b0, b1 = p['l0'] + off_of[p['idx']], p['l1'] + off_of[p['idx']]
@@ -212,8 +216,22 @@ def failures_generated(lay, mode):
     except Exception as e:  # pylint: disable=broad-except
         return {('X', type(e).__name__): f'{mode} parse raises {type(e).__name__}: {e}'[:300]}, 0, 0
     recs = collect(sf)
-    viol, paired = judge(lay.text, recs, lay, lazy=mode.startswith('lazy'))
+    viol, paired = judge(lay.text, recs, lay, lazy=mode.startswith('lazy'), fragments=fragments(lay.text, mode))
     return first_per_clause(viol), len(recs), paired
+
+
+def fragments(text, mode):
+    """Start lines of the top-level pieces (program units, raw source) that make_complete re-parses one by one."""
+    if not mode.startswith('lazy'):
+        return ()
+    from loki import Sourcefile, Frontend
+    from loki.frontend import RegexParserClass as R
+    try:
+        with LG.cpu_guard(CPU_BUDGET):
+            sf = Sourcefile.from_source(text, frontend=Frontend.REGEX, parser_classes=R.ProgramUnitClass)
+        return tuple(n.source.lines[0] for n in sf.ir.body if getattr(n, 'source', None) is not None)
+    except Exception:  # pylint: disable=broad-except
+        return ()
 
 
 def first_per_clause(viol):
@@ -254,7 +272,8 @@ def minimal_devs(devs, seed, mode, fkey):
 
 CLAUSE_TEXT = {'A': 'span outside the file', 'C': 'recorded text not in the recorded lines',
                'D': 'start line differs from the line of the statement', 'E': 'span outside the parent span',
-               'R': 'line numbers relative to the re-parsed unit, not to the file', 'X': 'frontend raises'}
+               'R': 'line numbers relative to the re-parsed unit, not to the file', 'X': 'frontend raises',
+               'N': 'empty text recorded for a statement'}
 
 
 def sig_generated(mode, fkey, sub):
@@ -293,7 +312,7 @@ def _counts(lay, mode):
         recs = collect(parse(lay.text, mode))
     except Exception:  # pylint: disable=broad-except
         return 0, 0
-    return len(recs), judge(lay.text, recs, lay, lazy=mode.startswith('lazy'))[1]
+    return len(recs), judge(lay.text, recs, lay, lazy=mode.startswith('lazy'), fragments=fragments(lay.text, mode))[1]
 
 
 def failures_repo(path, mode):
@@ -365,7 +384,7 @@ def run(ctx):
     _CFG['scratch'] = str(ctx.scratch)
     ctx.reset_pool()
     pairs = [(x, ctx.seed) for x in devlist]
-    chunks = [pairs[i:i + 40] for i in range(0, len(pairs), 40)]
+    chunks = [pairs[i:i + 20] for i in range(0, len(pairs), 20)]
     bad = [b for res in ctx.pmap(gf_chunk, chunks, chunksize=1) for b in res]
     ctx.require(not bad, f'generator emitted {len(bad)} file(s) gfortran rejects, first: {bad[:1]}')
 
